@@ -241,6 +241,37 @@ def check_decoder(res, ctx, rng, name):
                           f'{[hex(w) for w in stale]}) the completed call renders {t4!r}, a clean pair renders {text0!r}',
                           dict(case, stale=stale))
             return
+        # (3c) ... nor do the words of a call that is open on ANOTHER thread which, inside that call, emits a record naming
+        # this thread (a new-thread / exec / terminate announcement, scheduler and sampler records - H.NAMING in turn, every
+        # free word naming thread 6 or its pid): such a record is a statement about tables, not about who made the call
+        NAMING_TURN[0] += 1
+        others = [n_ for n_ in H.NAMING if n_ not in TABLE_WRITERS]
+        combos = [(x_, k_) for x_ in TABLE_WRITERS for k_ in (0, 1)] + \
+                 [(others[NAMING_TURN[0] % len(others)], (NAMING_TURN[0] // len(others)) % 2)]
+        nested6 = [a for j, p in enumerate(lookups) for a in H.lookup(0x40 + j, p)]
+        for (x, k_), first in [(c_, f_) for c_ in combos for f_ in ('named thread starts first', 'announcer starts first')]:
+            naming = H.A(x, H.NONE, H.naming_words(rng, x, 6, 600, k_))
+            items = [(6, H.A(name, H.START, start)), (7, H.A(name, H.START, other))]
+            if first == 'announcer starts first':
+                items.reverse()
+            items += [(7, naming)] + H.on_thread(6, nested6) + [(6, H.A(name, H.END, end)), (7, H.A(name, H.END, end))]
+            try:
+                parser = ev.new_parser()
+                t5 = []
+                for e in H.materialize(items):
+                    t = parser.feed(e)
+                    if t is not None and t.ktraces[0].tid == 6 and t.ktraces[0].eventid == ev.eid(name):
+                        t5.append(str(t))
+            except Exception as x_:
+                res.violation(f'c09-raises-{core.exc_name(x_)}', f'{name}: {x_!r} with a {x} record of another thread inside its '
+                              f'own open {name}', case)
+                return
+            res.count('announcer_variants')
+            if t5 != [text0]:
+                res.violation('c09-words-of-another-event', f'{name}: thread 7 has the same call open (words '
+                              f'{[hex(w) for w in other]}) and emits a {x} record naming thread 6 ({first}): thread 6\'s call '
+                              f'renders {t5}, a clean pair renders {text0!r}', dict(case, other=other, naming=x))
+                return
         # (4) quoted parameters come from the lookups, never from words
         for k, tok in enumerate(tokens0):
             if tok.startswith('"') and tok.endswith('"') and tok != '""':
@@ -252,6 +283,8 @@ def check_decoder(res, ctx, rng, name):
 
 
 STREAM_CASES = []
+NAMING_TURN = [0]
+TABLE_WRITERS = ('TRACE_DATA_NEWTHREAD', 'TRACE_DATA_EXEC', 'TRACE_DATA_THREAD_TERMINATE_PID', 'PERF_THD_Data')
 
 
 def same_call_on_all_threads(res, ctx, rng, names, n_threads=4, reps=25):
